@@ -7,6 +7,7 @@ package main
 import (
 	"encoding/json"
 	"flag"
+	"math"
 	"os"
 	"sort"
 
@@ -52,6 +53,7 @@ type gEvent struct {
 	Flt   gFlt     `json:"flt"`
 	Rules []gRule  `json:"rules"`
 	Size  int      `json:"size"`
+	Huge  int      `json:"huge"` // > 0: the real size is a huge one, Size a stand-in larger than the collection
 	Runs  []gRun   `json:"runs"`
 	Ret   string   `json:"ret"`
 }
@@ -73,6 +75,9 @@ type gCase struct {
 	Table  int        `json:"table"`
 	Pages  int        `json:"pages"`
 	Real   bool       `json:"real"` // values are the raw ones (random cases)
+	// Huge: the page size is one of hugeSizes ("everything on one page"); Size then holds
+	// a stand-in larger than the collection, which cuts the same pages
+	Huge int `json:"huge"`
 }
 
 func (c gCase) value(kind int, null bool, v fVal, raw string) any {
@@ -89,10 +94,19 @@ func (c gCase) value(kind int, null bool, v fVal, raw string) any {
 	return ordValue(kind, null, v, c.Table)
 }
 
+var hugeSizes = []uint{0, math.MaxInt64, 1 << 62, 1 << 63, math.MaxUint64, math.MaxInt32 + 1}
+
+func (c gCase) size() uint {
+	if c.Huge > 0 {
+		return hugeSizes[c.Huge%len(hugeSizes)]
+	}
+	return uint(c.Size)
+}
+
 func runRangeCase(c gCase) gEvent {
 	ev := gEvent{Ev: "range", Cls: classOf(c.KX), KindX: jsonapi.GetAttrTypeString(c.KX, c.NX),
 		KindY: jsonapi.GetAttrTypeString(c.KY, c.NY), Impl: c.Impl, Coll: c.Coll, Col: append([]gRes{}, c.Col...), IDs: c.IDs,
-		Flt: c.Flt, Rules: c.Rules, Size: c.Size, Runs: []gRun{}, Ret: "ok"}
+		Flt: c.Flt, Rules: c.Rules, Size: c.Size, Huge: c.Huge, Runs: []gRun{}, Ret: "ok"}
 	if ev.Col == nil {
 		ev.Col = []gRes{}
 	}
@@ -151,7 +165,7 @@ func runRangeCase(c gCase) gEvent {
 			}
 			run := gRun{Order: order, Pages: [][]string{}, After: []string{}, NonNil: true}
 			for num := 0; num < c.Pages; num++ {
-				page := jsonapi.Range(col, append([]string{}, c.IDs...), flt, append([]string{}, rules...), uint(c.Size), uint(num))
+				page := jsonapi.Range(col, append([]string{}, c.IDs...), flt, append([]string{}, rules...), c.size(), uint(num))
 				ids := []string{}
 				if page == nil || reflectIsNil(page) {
 					run.NonNil = false
@@ -315,6 +329,16 @@ func rangeMain(args []string) {
 			c.Rules = append(c.Rules, gRule{F: ruleNames[rng.Intn(3)], Desc: rng.Intn(2) == 0})
 		}
 		c.Size = rng.Intn(5)
+		if rng.Intn(12) == 0 {
+			// number*size stays below 2^63: page 0 only for the sizes from 2^63 up
+			c.Huge = 1 + rng.Intn(len(hugeSizes)-1)
+			c.Size = len(c.Col) + 1
+			c.Pages = 1
+			if hugeSizes[c.Huge] <= 1<<62 {
+				c.Pages = 2
+			}
+			stt.class("huge-size")
+		}
 		have := []string{}
 		for _, r := range c.Col {
 			have = append(have, r.ID)
